@@ -40,7 +40,12 @@ TVEnd == /\ l <= Len(Rec) /\ Rec[l].ev = "end"
                                   THEN {"C09/daemon/descriptor-still-open-after-the-daemon-was-dropped"} ELSE {}, cur)
          /\ l' = l + 1 /\ UNCHANGED <<s, judged, cur>>
 TVOther == /\ l <= Len(Rec) /\ Rec[l].ev = "threads" /\ l' = l + 1 /\ UNCHANGED <<s, viol, judged, cur>>
-TVNext == TVReset \/ TVStep \/ TVEnd \/ TVOther
+\* the process under test was killed by a signal while this case ran (recorded by the driver; `begin` marks the letter that
+\* was in progress): judged like any other observation -- whatever the property, an input that kills the process breaks it
+TVCrashAny == /\ l <= Len(Rec) /\ Rec[l].ev \in {"crash", "begin"}
+              /\ viol' = IF Rec[l].ev = "crash" THEN AddViol(viol, {"ANY/process-killed-by-signal-" \o Str(Rec[l].signal)}, Rec[l].id) ELSE viol
+              /\ l' = l + 1 /\ UNCHANGED <<s, judged, cur>>
+TVNext == TVReset \/ TVStep \/ TVEnd \/ TVOther \/ TVCrashAny
 TVSpec == TVInit /\ [][TVNext]_tvars
 Post == PostOK
 Report == ReportAt(l, judged, viol)
